@@ -251,12 +251,24 @@ def rule_register(ctx):
 
 
 # time formats ---------------------------------------------------------------------
+_CLASS_CONSTS = {}
+
+
+def _const_arg(a):
+    """a constant, or a class-level constant `cls.NAME` / `self.NAME` / `FileInfo.NAME` (a format string moved into a named constant)"""
+    if isinstance(a, ast.Constant):
+        return a
+    if isinstance(a, ast.Attribute) and isinstance(a.value, ast.Name) and a.value.id in ("cls", "self", "FileInfo") and a.attr in _CLASS_CONSTS:
+        return _CLASS_CONSTS[a.attr]
+    return a
+
+
 def _time_writer(call):
     """classify a <time>.strftime(F) / <time>.isoformat(...) call -> (kind, detail)"""
     if not isinstance(call.func, ast.Attribute):
         return None
-    if call.func.attr == "strftime" and call.args and isinstance(call.args[0], ast.Constant):
-        return ("strftime", call.args[0].value)
+    if call.func.attr == "strftime" and call.args and isinstance(_const_arg(call.args[0]), ast.Constant):
+        return ("strftime", _const_arg(call.args[0]).value)
     if call.func.attr == "isoformat":
         ts = "auto"
         sep = "T"
@@ -279,6 +291,11 @@ def rule_format(ctx):
     w = ctx.func(HCOMMON, "FileInfo.to_json_dict")
     r = ctx.func(HCOMMON, "FileInfo.from_json_dict")
     from ..normalize import helper_closure
+    _CLASS_CONSTS.clear()
+    for cd in [n_ for n_ in w.module.tree.body if isinstance(n_, ast.ClassDef) and n_.name == "FileInfo"]:
+        for st_ in cd.body:
+            if isinstance(st_, ast.Assign) and len(st_.targets) == 1 and isinstance(st_.targets[0], ast.Name) and isinstance(st_.value, ast.Constant):
+                _CLASS_CONSTS[st_.targets[0].id] = st_.value
     writers = []
     for c in [c_ for n_ in helper_closure(w) for c_ in calls_in(n_)]:
         k = _time_writer(c)
@@ -288,8 +305,8 @@ def rule_format(ctx):
     rnodes = helper_closure(r)
     for c in [c_ for n_ in rnodes for c_ in calls_in(n_)]:
         d = dotted(c.func) or ""
-        if d.endswith("strptime") and len(c.args) == 2 and isinstance(c.args[1], ast.Constant):
-            readers.append((c, ("strptime", c.args[1].value)))
+        if d.endswith("strptime") and len(c.args) == 2 and isinstance(_const_arg(c.args[1]), ast.Constant):
+            readers.append((c, ("strptime", _const_arg(c.args[1]).value)))
         elif d.endswith("fromisoformat"):
             readers.append((c, ("fromisoformat", None)))
     if len(writers) < 2 or not readers:
